@@ -23,6 +23,7 @@ type Case struct {
 	UseSched bool  `json:",omitempty"`
 	Choices  []int `json:",omitempty"`
 	PanicAt  int
+	PanicNil bool `json:",omitempty"`
 	Fuel     int
 	Alt      *Scenario `json:",omitempty"` // second scenario for metamorphic laws
 
@@ -64,7 +65,7 @@ func diffVerdict(oracle string, exp, obs hist.H) Verdict {
 
 // evalRefEq: the real runtime must produce exactly the reference history.
 func evalRefEq(c *Case) Verdict {
-	o := PlayOpt{PanicAt: c.PanicAt, Fuel: c.Fuel, UseSched: c.UseSched, Replay: c.Choices}
+	o := PlayOpt{PanicAt: c.PanicAt, PanicNil: c.PanicNil, Fuel: c.Fuel, UseSched: c.UseSched, Replay: c.Choices}
 	ref := Play(c.Sc, Ref, o)
 	o.MaskRes = ref.ResMask
 	real := Play(c.Sc, Real, o)
